@@ -16,7 +16,7 @@ PID = "C07"
 LEVEL = "exploration"
 RULE = (
     "cases = call-only DAG programs (all-thread nodes, integer priorities) x {plain, reconfigured with "
-    "config_from_dict, executor with target/exclude/root selection}; each case is built and run (max_concurrency=1) "
+    "config_from_dict, executor with target/exclude/root selection}, DAG or AsyncDAG flavour; each case is built and run (max_concurrency=1) "
     "in 4 processes with different PYTHONHASHSEED; oracle: table == own priority + sum over distinct descendants "
     "(computed by the harness), identical across processes, identical on sub-graphs, and the execution order equals "
     "the unique order of 'take the max compound priority ready node' as long as there is no tie. Phase 1 enumerates "
@@ -157,6 +157,8 @@ def cases(draw: Any) -> Dict[str, Any]:
                            mark_roots=False))
     sites = [s["site"] for s in P["body"]]
     case: Dict[str, Any] = {"prog": P}
+    if draw(st.sampled_from([True, False, False])):
+        case["async"] = True  # AsyncDAG / AsyncDAGExecution flavour of the same questions
     mode = draw(st.sampled_from(["plain", "reconf", "sel", "sel", "reconf+sel"]))
     if "reconf" in mode:
         some = draw(st.lists(st.sampled_from(sites), min_size=1, max_size=len(sites), unique=True))
